@@ -313,8 +313,11 @@ class C14(core.Check):
         far = lambda: [str(rng.choice([-1, 1]) * 2 ** rng.randint(20, 23) + rng.randint(-1000, 1000)) for _ in range(3)]
         exact_turns = [[1, 1, 0, 0], [1, 0, 1, 0], [1, 0, 0, 1], [0, 1, 0, 0], [0, 0, 1, 0], [1, -1, 0, 0], [1, 1, 1, 1]]
         ts.append({"trans": far()})
-        ts.append({"sigma": [rng.choice(rots) for _ in range(ncells)], "trans": far()})
-        ts.append({"quat": rng.choice(exact_turns), "trans": far()})
+        if tier == "thorough":
+            ts.append({"sigma": [rng.choice(rots) for _ in range(ncells)], "trans": far()})
+            ts.append({"quat": rng.choice(exact_turns), "trans": far()})
+        else:
+            ts.append({"sigma": [rng.choice(rots) for _ in range(ncells)], "quat": rng.choice(exact_turns), "trans": far()})
         ts.append({"sigma": [rng.choice(rots) for _ in range(ncells)], "quat": self._quat(rng), "trans": tr(), "scale": sc()})
         if all_rot:
             for s in rots:
